@@ -6,7 +6,7 @@ CONSTANTS
   MaxW = 20
   ResSrcs <- Q_ResSrcs
   Targets <- Q_Targets
-  MaxNum = 64
+  MaxNum = 320
   SpecStep = "realised"
   WinClamp = TRUE
   SeekClamp = TRUE
